@@ -367,7 +367,7 @@ def case(ctx, rng, idx, state):
 if __name__ == "__main__":
     harness.main(
         PROP, "exploration", case, setup_fn=setup,
-        tiers=dict(quick=dict(cases=800, shards=8, time=100), thorough=dict(cases=30000, shards=16, time=1000)),
+        tiers=dict(quick=dict(cases=800, shards=8, time=900), thorough=dict(cases=30000, shards=16, time=3000)),
         rule="(A) one FermiDirac/Gaussian/Void smoother on an evenly spaced grid of 2-40 points, width 0.03-20 grid steps, "
              "maxdE default/int 1-12/float 0.2-40, array of 1-4 dims (equal extents in 30 %), random axis, real/complex; "
              "(B) EnergyResult with 1-3 energy axes of 2-12 points, rank 0-2, every mix of FermiDirac/Gaussian/Void/None "
